@@ -1,6 +1,6 @@
 (* C04 — correlation estimators and the n(z) formula are applied as documented.
    Statements only; proofs are in Proofs/EstimatorsP.v (and Proofs/JackknifeP.v). *)
-From Verif Require Import Prelude Jackknife JackknifeP Estimators EstimatorsP EstimatorsRP CorrAlgebra CorrAlgebraP PairIndex PairIndexP.
+From Verif Require Import Prelude Jackknife JackknifeP Estimators EstimatorsP EstimatorsRP CorrAlgebra CorrAlgebraP PairIndex PairIndexP LegacyCounts LegacyCountsP.
 From Coq Require Import Reals.
 Open Scope Q_scope.
 
@@ -632,4 +632,112 @@ Example C04_concrete_many_patches :
   (* the thresholds *)
   /\ flat_w 16 181 180 180 = 32760%Z /\ flat_w 16 182 180 8 = (-32768)%Z /\ lands 16 182 180 8 = (1, 174)%Z
   /\ flat_w 8 12 10 8 = (-128)%Z /\ lands 8 12 10 8 = (1, 4)%Z.
+Proof. vm_compute. repeat split; reflexivity. Qed.
+
+(* ---------------------------------------------------------------- legacy files (yaw < 3.0 layout) *)
+(* A legacy pair-count member (keys, data, totals1, totals2 with shape (patches, bins)) decoded into the
+   current container: sum_weights1 holds totals1 and sum_weights2 holds totals2, entry by entry *)
+Theorem C04_legacy_decode_keeps_roles : forall B l b i, (b < B)%nat ->
+  nth i (nth b (pc_w1 (decode B l)) []) 0 = nth b (nth i (lg_totals1 l) []) 0
+  /\ nth i (nth b (pc_w2 (decode B l)) []) 0 = nth b (nth i (lg_totals2 l) []) 0.
+Proof. exact decode_keeps_roles. Qed.
+Print Assumptions C04_legacy_decode_keeps_roles.
+
+Theorem C04_legacy_decode_keeps_auto_and_shape : forall B l,
+  pc_auto (decode B l) = lg_auto l /\ length (pc_w1 (decode B l)) = B /\ length (pc_w2 (decode B l)) = B
+  /\ pc_bins (decode B l) = B.
+Proof. exact decode_keeps_auto_and_shape. Qed.
+Print Assumptions C04_legacy_decode_keeps_auto_and_shape.
+
+(* the normalisation of a decoded cross-correlation term is the product of BOTH samples' totals ... *)
+Theorem C04_legacy_cross_denominator : forall B l b, (b < B)%nat -> lg_auto l = false ->
+  norm_denominator (pc_auto (decode B l)) (nth b (pc_w1 (decode B l)) []) (nth b (pc_w2 (decode B l)) [])
+  == legacy_total1 l b * legacy_total2 l b.
+Proof. exact decode_cross_denominator. Qed.
+Print Assumptions C04_legacy_cross_denominator.
+
+(* ... and the documented term is the bin's total pair count over that product *)
+Theorem C04_legacy_cross_term : forall B l b, (b < B)%nat -> lg_auto l = false ->
+  fst (nth b (pc_data_doc (decode B l)) dq0)
+  == total (nth b (pc_counts (decode B l)) []) / (legacy_total1 l b * legacy_total2 l b).
+Proof. exact decode_cross_term. Qed.
+Print Assumptions C04_legacy_cross_term.
+
+Theorem C04_legacy_auto_denominator : forall B l b, (b < B)%nat -> lg_auto l = true -> lg_totals2 l = lg_totals1 l ->
+  norm_denominator (pc_auto (decode B l)) (nth b (pc_w1 (decode B l)) []) (nth b (pc_w2 (decode B l)) [])
+  == (1 # 2) * (legacy_total1 l b * legacy_total1 l b).
+Proof. exact decode_auto_denominator. Qed.
+Print Assumptions C04_legacy_auto_denominator.
+
+(* a decoder that fills both roles from totals1: identical whenever the two samples have equal totals
+   (dd and rr of an autocorrelation), divides by the square of the first total otherwise, refuted by a
+   cross-correlation member whose samples weigh 2 and 8 *)
+Theorem C04_legacy_first_twice_agrees_equal_totals : forall B l,
+  lg_totals2 l = lg_totals1 l -> decode_first_twice B l = decode B l.
+Proof. exact decode_first_twice_agrees_equal_totals. Qed.
+Print Assumptions C04_legacy_first_twice_agrees_equal_totals.
+
+Theorem C04_legacy_first_twice_denominator : forall B l b, (b < B)%nat -> lg_auto l = false ->
+  norm_denominator (pc_auto (decode_first_twice B l)) (nth b (pc_w1 (decode_first_twice B l)) [])
+                   (nth b (pc_w2 (decode_first_twice B l)) [])
+  == legacy_total1 l b * legacy_total1 l b.
+Proof. exact decode_first_twice_denominator. Qed.
+Print Assumptions C04_legacy_first_twice_denominator.
+
+Theorem C04_legacy_first_twice_refuted : exists B l,
+  legacy_wf B l = true /\ lg_auto l = false
+  /\ fst (nth 0 (pc_data_doc (decode B l)) dq0) == legacy_term l 0
+  /\ ~ fst (nth 0 (pc_data_doc (decode_first_twice B l)) dq0) == legacy_term l 0
+  /\ pc_eqb (decode_first_twice B l) (decode B l) = false.
+Proof. exact decode_first_twice_refuted. Qed.
+Print Assumptions C04_legacy_first_twice_refuted.
+
+(* the two roles exchanged: no term of a cross-correlation notices (value and every leave-one-out
+   denominator), the stored fields and the data-random term of an autocorrelation do *)
+Theorem C04_legacy_swapped_same_cross_denominator : forall u v,
+  norm_denominator false u v == norm_denominator false v u
+  /\ forall k, norm_denominator false (remove_nth k u) (remove_nth k v)
+               == norm_denominator false (remove_nth k v) (remove_nth k u).
+Proof. exact swapped_same_cross_denominator. Qed.
+Print Assumptions C04_legacy_swapped_same_cross_denominator.
+
+Theorem C04_legacy_swapped_refuted :
+  (exists B l, legacy_wf B l = true /\ lg_auto l = false
+     /\ qlist_eqb (map fst (pc_data_doc (decode_swapped B l))) (map fst (pc_data_doc (decode B l))) = true
+     /\ pc_eqb (decode_swapped B l) (decode B l) = false)
+  /\ (exists B l, legacy_wf B l = true /\ lg_auto l = true
+     /\ qlist_eqb (map fst (pc_data_doc (decode_swapped B l))) (map fst (pc_data_doc (decode B l))) = false).
+Proof. exact decode_swapped_refuted. Qed.
+Print Assumptions C04_legacy_swapped_refuted.
+
+(* a (patches, bins) table taken as it is: silent when patches = bins *)
+Theorem C04_legacy_untransposed_square_refuted : exists B l,
+  legacy_wf B l = true /\ lg_npatch l = B
+  /\ length (pc_w1 (decode_untransposed B l)) = B
+  /\ rectb (lg_npatch l) (pc_w1 (decode_untransposed B l)) = true
+  /\ pc_eqb (decode_untransposed B l) (decode B l) = false.
+Proof. exact decode_untransposed_square_refuted. Qed.
+Print Assumptions C04_legacy_untransposed_square_refuted.
+
+(* status 0 of the legacy checker: restored containers = decoded ones, sample() as c04_corr_case_x demands *)
+Theorem C04_legacy_case_sound : forall B N c a impl,
+  c04_legacy_case B N c (Some (Some a)) impl = 0%nat ->
+  cfs_eqb (decode_cf B c) a = true
+  /\ c04_corr_case_x N (cf_dd (decode_cf B c)) (cf_dr (decode_cf B c)) (cf_rd (decode_cf B c))
+                     (cf_rr (decode_cf B c)) impl = 0%nat
+  /\ lcf_wf B c = true.
+Proof. exact legacy_case_sound. Qed.
+Print Assumptions C04_legacy_case_sound.
+
+Example C04_concrete_legacy :
+  let c := {| l_dd := lg_example; l_dr := Some lg_example; l_rd := None; l_rr := None |} in
+  let s := decode_cf 2 c in
+  let exact_impl := Some (map (fun r => Some (fst (fst r))) (cfs_data s),
+                          map (map (fun r => Some (fst (fst r)))) (cfs_samples 2 s)) in
+  (* 6 pairs / (2 * 8) in bin 0 *)
+  fst (nth 0 (pc_data_doc (decode 2 lg_example)) dq0) == 3 # 8
+  /\ fst (nth 0 (pc_data_doc (decode_first_twice 2 lg_example)) dq0) == 3 # 2
+  /\ c04_legacy_case 2 2 c (Some (Some s)) exact_impl = 0%nat
+  /\ c04_legacy_case 2 2 c (Some (Some (decode_cf_with decode_first_twice 2 c))) exact_impl = 8%nat
+  /\ c04_legacy_case 2 2 c (Some (Some (decode_cf_with decode_swapped 2 c))) exact_impl = 8%nat.
 Proof. vm_compute. repeat split; reflexivity. Qed.
